@@ -433,6 +433,11 @@ package common
 //@   ensures[inserted-under-base-name] has(f.fileNameMap[splitLast(strFile, "/")], strFile)
 //@   ensures[inserted-under-stem] strIndex(splitLast(strFile, "/"), ".") >= 0 ==>
 //@        has(f.freFileNameMap[splitLast(strFile, "/")[0:strIndex(splitLast(strFile, "/"), ".")]], strFile)
+// the value filed under the path is the path without its suffix in BOTH indexes and on both branches (bucket exists / is
+// created): GetBestMatchReferFile matches a suffix-less require against it (seed C08-reinserted-file-indexed-under-bare-name)
+//@   ensures[value-is-the-path-without-suffix] streq(f.fileNameMap[splitLast(strFile, "/")][strFile], lastresult("CompleteFilePathToPreStr#0"))
+//@   ensures[stem-value-is-the-path-without-suffix] strIndex(splitLast(strFile, "/"), ".") >= 0 ==>
+//@        streq(f.freFileNameMap[splitLast(strFile, "/")[0:strIndex(splitLast(strFile, "/"), ".")]][strFile], lastresult("CompleteFilePathToPreStr#0"))
 //@ end
 
 //@ func (*FileIndexInfo).RemoveOneFile
